@@ -193,14 +193,18 @@ Definition delta (named : bool) (u : user) (od : option doc) (from to : rid) : d
       end
   end.
 
-(* the repair: the source is authorised like the target; an unauthorised source falls back to the full revision *)
+(* the repair (patch proposed with the finding): after the removal / tombstone tests the source is authorised like
+   the target; an unauthorised source yields no delta and the caller falls back to the full revision *)
 Definition delta_repaired (named : bool) (u : user) (od : option doc) (from to : rid) : delta_out :=
   match od with
   | None => DErr
   | Some d =>
       match find_node d from with
       | None => DErr
-      | Some f => if can_see_any named u (rv_chans (n_rev f)) then delta named u od from to else DNil
+      | Some f =>
+          if rv_removed (n_rev f) then DMissing
+          else if rv_deleted (n_rev f) then DSrcTombstone
+          else if can_see_any named u (rv_chans (n_rev f)) then delta named u od from to else DNil
       end
   end.
 
@@ -326,5 +330,14 @@ Definition carries_content (a : answer) : bool :=
 Definition prove_serves (v3 : bool) (g : gate) (legacy : list N) (k : N) : bool :=
   (negb v3 && gate_serves g k) || cmem k legacy.
 
-(* the repair: the same gate as getAttachment *)
-Definition prove_serves_repaired (v3 : bool) (g : gate) (legacy : list N) (k : N) : bool := gate_serves g k.
+(* the repair (patch proposed with the finding): a miss, or a counter that is not positive, is answered 404 *)
+Definition prove_serves_repaired (v3 : bool) (g : gate) (legacy : list N) (k : N) : bool := negb v3 && gate_serves g k.
+
+(* ---------------- switches for the correspondence ---------------- *)
+(* the unchanged code has both defects; flip a switch when /repo gets the corresponding fix, so that the
+   correspondence keeps comparing the code with the function it now implements *)
+Definition delta_source_checked : bool := false.
+Definition prove_counter_checked : bool := false.
+
+Definition delta_impl := if delta_source_checked then delta_repaired else delta.
+Definition prove_impl := if prove_counter_checked then prove_serves_repaired else prove_serves.
